@@ -1,7 +1,7 @@
 #!/bin/sh
 # Overlay venv of /venv with z3-solver from the offline wheelhouse. Idempotent.
 set -e
-V=/verif/.venv
+V="$(cd "$(dirname "$0")" && pwd)/.venv"
 if [ ! -x "$V/bin/python" ] || ! "$V/bin/python" -c "import z3, numpy, numba" 2>/dev/null; then
   rm -rf "$V"
   /venv/bin/python -m venv "$V"
